@@ -8,6 +8,9 @@ From SV Require Import lib.Bytes lib.Closure model.Graph model.GraphInv
 Import ListNotations.
 Open Scope N_scope.
 
+Section HH.
+Context {hh : bool}.
+
 (* ------------------------------------------------------------------------------------------ *)
 (* frames                                                                                      *)
 (* ------------------------------------------------------------------------------------------ *)
@@ -43,8 +46,8 @@ Proof.
 Qed.
 
 Lemma Inv_SO s s' :
-  Inv s -> SO s s' -> FHl (files s') -> SWl (steps s') -> UDl (nodes s) (files s') ->
-  NoDup (shash s') -> incl (shash s') (SL (steps s)) -> Inv s'.
+  Inv hh s -> SO s s' -> FHl (files s') -> SWl hh (steps s') -> UDl (nodes s) (files s') ->
+  NoDup (shash s') -> incl (shash s') (SL (steps s)) -> Inv hh s'.
 Proof.
   intros HI [E1 E2 E3 E4 E5 E6] HF HS HU Hh1 Hh2. destruct HI as [I1 I2 I3 I4 I5 I6 I7].
   constructor; rewrite ?E1, ?E2, ?E3; try assumption.
@@ -127,14 +130,14 @@ Proof. unfold sstate_of, find_step. fold (finds l (steps s)). destruct (finds l 
 
 (* set_fstate_hash *)
 Lemma set_fstate_hash_spec strict l new newh s :
-  Inv s -> new <> FUndeclared ->
+  Inv hh s -> new <> FUndeclared ->
   (strict = true -> needs_hash new = true ->
      match newh with
      | Some h => h <> None
      | None => forall r, find_file l s = Some r -> fh r <> None
      end) ->
   wpg strict (set_fstate_hash l new newh s)
-      (fun s' => Inv s' /\ SO s s' /\ steps s' = steps s /\ shash s' = shash s /\
+      (fun s' => Inv hh s' /\ SO s s' /\ steps s' = steps s /\ shash s' = shash s /\
                  (forall l', l' <> l -> find_file l' s' = find_file l' s) /\
                  (find_file l s <> None -> fstate_of l s' = Some new) /\
                  (find_file l s = None -> s' = s)).
@@ -182,9 +185,9 @@ Qed.
 (* step rows                                                                                   *)
 (* ------------------------------------------------------------------------------------------ *)
 Lemma upd_step_inv l g s :
-  Inv s -> (forall r, sl (g r) = sl r) ->
-  (forall r, In r (steps s) -> sl r = l -> sw_ok_b (g r) = true) ->
-  Inv (upd_step l g s) /\ SO s (upd_step l g s).
+  Inv hh s -> (forall r, sl (g r) = sl r) ->
+  (forall r, In r (steps s) -> sl r = l -> sw_ok_b hh (g r) = true) ->
+  Inv hh (upd_step l g s) /\ SO s (upd_step l g s).
 Proof.
   intros HI Hg Hok.
   assert (HSO : SO s (upd_step l g s)).
@@ -204,9 +207,9 @@ Proof.
 Qed.
 
 Lemma set_sstate_spec strict l new d s :
-  Inv s -> (strict = true -> d = true -> new = SPending) ->
+  Inv hh s -> (strict = true -> d = true -> new = SPending) ->
   wpg strict (set_sstate l new d s)
-      (fun s' => Inv s' /\ SO s s' /\ files s' = files s /\ shash s' = shash s /\
+      (fun s' => Inv hh s' /\ SO s s' /\ files s' = files s /\ shash s' = shash s /\
                  (forall l', l' <> l -> find_step l' s' = find_step l' s) /\
                  (find_step l s <> None -> sstate_of l s' = Some new) /\
                  (find_step l s = None -> s' = s)).
@@ -237,7 +240,7 @@ Qed.
 (* stored hashes and env rows                                                                  *)
 (* ------------------------------------------------------------------------------------------ *)
 Lemma Inv_set_shash s sh :
-  Inv s -> NoDup sh -> incl sh (SL (steps s)) -> Inv (set_shash s sh) /\ SO s (set_shash s sh).
+  Inv hh s -> NoDup sh -> incl sh (SL (steps s)) -> Inv hh (set_shash s sh) /\ SO s (set_shash s sh).
 Proof.
   intros HI H1 H2.
   assert (HSO : SO s (set_shash s sh)) by (constructor; reflexivity).
@@ -246,7 +249,7 @@ Proof.
                     | exact H1 | exact H2].
 Qed.
 
-Lemma delete_hash_inv l s : Inv s -> Inv (delete_hash l s) /\ SO s (delete_hash l s).
+Lemma delete_hash_inv l s : Inv hh s -> Inv hh (delete_hash l s) /\ SO s (delete_hash l s).
 Proof.
   intros HI. unfold delete_hash. apply Inv_set_shash; [exact HI | |].
   - apply NoDup_filter. apply (rw_hnodup _ _ _ _ _ (inv_rw _ HI)).
@@ -275,7 +278,7 @@ Proof.
   - intros [r ->]. discriminate.
 Qed.
 
-Lemma store_hash_inv l s : Inv s -> find_step l s <> None -> Inv (store_hash l s) /\ SO s (store_hash l s).
+Lemma store_hash_inv l s : Inv hh s -> find_step l s <> None -> Inv hh (store_hash l s) /\ SO s (store_hash l s).
 Proof.
   intros HI Hl. unfold store_hash. destruct (has_hash l s) eqn:E; [split; [exact HI | apply SO_refl]|].
   apply Inv_set_shash; [exact HI | |].
@@ -285,14 +288,14 @@ Proof.
 Qed.
 
 Lemma Inv_set_envs s es :
-  Inv s -> incl (map estep es) (SL (steps s)) -> Inv (set_envs s es).
+  Inv hh s -> incl (map estep es) (SL (steps s)) -> Inv hh (set_envs s es).
 Proof.
   intros [I1 I2 I3 I4 I5 I6 I7] H. constructor; try assumption.
   destruct I2 as [H1 H2 H3 H4 H5 H6 H7]. constructor; assumption.
 Qed.
 
 Lemma add_env_inv step name dyn replace s :
-  Inv s -> find_step step s <> None -> Inv (add_env step name dyn replace s).
+  Inv hh s -> find_step step s <> None -> Inv hh (add_env step name dyn replace s).
 Proof.
   intros HI Hs. unfold add_env.
   pose proof (rw_estep _ _ _ _ _ (inv_rw _ HI)) as He.
@@ -352,22 +355,22 @@ Proof.
 Qed.
 
 (* the sink of an edge exists, with its row *)
-Lemma edge_snk_step s k l : Inv s -> In (k, (KStep, l)) (EL (deps s)) -> find_step l s <> None.
+Lemma edge_snk_step s k l : Inv hh s -> In (k, (KStep, l)) (EL (deps s)) -> find_step l s <> None.
 Proof.
   intros HI He. apply in_map_iff in He. destruct He as [d [Hd1 Hd2]]. inversion Hd1; subst.
   apply find_step_SL. apply (rw_steps _ _ _ _ _ (inv_rw _ HI)). rewrite <- H1.
   apply (dw_snk _ _ (inv_dw _ HI)). exact Hd2.
 Qed.
-Lemma edge_snk_file s k f : Inv s -> In (k, (KFile, f)) (EL (deps s)) -> find_file f s <> None.
+Lemma edge_snk_file s k f : Inv hh s -> In (k, (KFile, f)) (EL (deps s)) -> find_file f s <> None.
 Proof.
   intros HI He. apply in_map_iff in He. destruct He as [d [Hd1 Hd2]]. inversion Hd1; subst.
   apply find_file_FL. apply (rw_files _ _ _ _ _ (inv_rw _ HI)). rewrite <- H1.
   apply (dw_snk _ _ (inv_dw _ HI)). exact Hd2.
 Qed.
 
-Definition mark_post (s s' : st) : Prop := Inv s' /\ SO s s' /\ Outd s s'.
+Definition mark_post (s s' : st) : Prop := Inv hh s' /\ SO s s' /\ Outd s s'.
 
-Lemma mark_post_refl s : Inv s -> mark_post s s.
+Lemma mark_post_refl s : Inv hh s -> mark_post s s.
 Proof. intros H. split; [exact H|]. split; [apply SO_refl | apply Outd_refl]. Qed.
 Lemma mark_post_trans s1 s2 s3 : mark_post s1 s2 -> mark_post s2 s3 -> mark_post s1 s3.
 Proof.
@@ -378,10 +381,10 @@ Lemma Outd_of_files_eq s s' : files s' = files s -> Outd s s'.
 Proof. intros H l. left. unfold fstate_of, find_file. rewrite H. reflexivity. Qed.
 
 Lemma mark_spec strict fuel :
-  (forall l s, Inv s ->
+  (forall l s, Inv hh s ->
      (strict = true -> find_step l s <> None /\ depth_lt s (KStep, l) fuel) ->
      wpg strict (mark_step_pending_f fuel l s) (mark_post s)) /\
-  (forall f s, Inv s ->
+  (forall f s, Inv hh s ->
      (strict = true -> (fstate_of f s = Some FBuilt \/ fstate_of f s = Some FOutdated) /\
                        depth_lt s (KFile, f) fuel) ->
      wpg strict (mark_file_outdated_f fuel f s) (mark_post s)).
@@ -396,14 +399,14 @@ Proof.
       2:{ destruct strict; [|exact I]. cbn. destruct (Hst eq_refl) as [Hf _].
           unfold sstate_of in Hold. destruct (find_step l s); [discriminate | congruence]. }
       assert (Hmain : forall (after : st -> res st),
-                 (forall s1, Inv s1 -> SO s s1 -> files s1 = files s -> wpg strict (after s1) (mark_post s1)) ->
+                 (forall s1, Inv hh s1 -> SO s s1 -> files s1 = files s -> wpg strict (after s1) (mark_post s1)) ->
                  wpg strict (bind (set_sstate l SPending false s) after) (mark_post s)).
       { intros after Hafter. apply wpg_bind.
         eapply wpg_weaken; [apply set_sstate_spec; [exact HI | intros _ H; discriminate]|].
         intros s1 [HI1 [HSO1 [Hfiles1 _]]]. eapply wpg_weaken; [apply Hafter; assumption|].
         intros s2 Hp. eapply mark_post_trans; [|exact Hp].
         split; [exact HI1|]. split; [exact HSO1 | apply Outd_of_files_eq; exact Hfiles1]. }
-      assert (Hprop : forall s1, Inv s1 -> SO s s1 -> files s1 = files s ->
+      assert (Hprop : forall s1, Inv hh s1 -> SO s s1 -> files s1 = files s ->
                  wpg strict (foldM (fun s f => match fstate_of f s with
                                                | Some FBuilt => mark_file_outdated_f fuel f s
                                                | _ => Ok s end) (file_sinks_of_step l s1) s1) (mark_post s1)).
@@ -458,7 +461,7 @@ Proof.
 Qed.
 
 (* fuel_of suffices: a dependency path cannot be longer than the number of nodes *)
-Lemma depth_ok s k : Inv s -> depth_lt s k (fuel_of s).
+Lemma depth_ok s k : Inv hh s -> depth_lt s k (fuel_of s).
 Proof.
   intros HI m x Hp. unfold fuel_of.
   destruct (acyclic_pathn_bound (EL (deps s)) (KL (nodes s)) m k x (inv_ac _ HI)) as [->|Hle]; [| exact Hp | | ].
@@ -469,7 +472,7 @@ Proof.
 Qed.
 
 Lemma mark_step_pending_spec strict l s :
-  Inv s -> (strict = true -> find_step l s <> None) ->
+  Inv hh s -> (strict = true -> find_step l s <> None) ->
   wpg strict (mark_step_pending l s) (mark_post s).
 Proof.
   intros HI Hst. unfold mark_step_pending. apply (proj1 (mark_spec strict (fuel_of s))); [exact HI|].
@@ -477,7 +480,7 @@ Proof.
 Qed.
 
 Lemma mark_file_outdated_spec strict f s :
-  Inv s -> (strict = true -> fstate_of f s = Some FBuilt \/ fstate_of f s = Some FOutdated) ->
+  Inv hh s -> (strict = true -> fstate_of f s = Some FBuilt \/ fstate_of f s = Some FOutdated) ->
   wpg strict (mark_file_outdated f s) (mark_post s).
 Proof.
   intros HI Hst. unfold mark_file_outdated. apply (proj2 (mark_spec strict (fuel_of s))); [exact HI|].
@@ -485,7 +488,7 @@ Proof.
 Qed.
 
 Lemma mark_consumers_pending_spec strict f s :
-  Inv s -> wpg strict (mark_consumers_pending f s) (mark_post s).
+  Inv hh s -> wpg strict (mark_consumers_pending f s) (mark_post s).
 Proof.
   intros HI. unfold mark_consumers_pending.
   apply (wpg_foldM strict _ (mark_post s)); [|apply mark_post_refl; exact HI].
@@ -528,10 +531,10 @@ Qed.
 
 (* rebuild Inv when only the node table (and possibly stored hashes) changed, keys kept *)
 Lemma Inv_nodes_change s s' :
-  Inv s -> NWl (nodes s') -> KL (nodes s') = KL (nodes s) ->
+  Inv hh s -> NWl (nodes s') -> KL (nodes s') = KL (nodes s) ->
   files s' = files s -> steps s' = steps s -> deps s' = deps s -> envs s' = envs s ->
   NoDup (shash s') -> incl (shash s') (shash s) ->
-  UDl (nodes s') (files s) -> Inv s'.
+  UDl (nodes s') (files s) -> Inv hh s'.
 Proof.
   intros [I1 I2 I3 I4 I5 I6 I7] HN HK Hf Hs Hd He Hh1 Hh2 HU.
   constructor; rewrite ?Hf, ?Hs, ?Hd, ?He; try assumption.
@@ -583,8 +586,8 @@ Proof.
 Qed.
 
 Lemma node_detach_spec strict k s :
-  Inv s -> k <> root_key -> (strict = true -> find_node k s <> None) ->
-  wpg strict (node_detach k s) (fun s' => Inv s' /\ NodeOnly s s' /\ NF [] s s').
+  Inv hh s -> k <> root_key -> (strict = true -> find_node k s <> None) ->
+  wpg strict (node_detach k s) (fun s' => Inv hh s' /\ NodeOnly s s' /\ NF [] s s').
 Proof.
   intros HI Hk Hst. unfold node_detach.
   destruct (find_node k s) as [n|] eqn:Hf.
@@ -632,9 +635,9 @@ Lemma KL_reattach_nodes ns k c det : KL (reattach_nodes k c det ns) = KL ns.
 Proof. unfold reattach_nodes, KL. rewrite map_nk_setdet. apply map_nk_updn. reflexivity. Qed.
 
 Lemma after_lost_product_spec strict oc s :
-  Inv s -> (strict = true -> fst oc = KStep \/ fst oc = KTree) ->
+  Inv hh s -> (strict = true -> fst oc = KStep \/ fst oc = KTree) ->
   wpg strict (after_lost_product oc s)
-      (fun s' => Inv s' /\ SO s s' /\ files s' = files s /\ steps s' = steps s /\ incl (shash s') (shash s)).
+      (fun s' => Inv hh s' /\ SO s s' /\ files s' = files s /\ steps s' = steps s /\ incl (shash s') (shash s)).
 Proof.
   intros HI Hst. unfold after_lost_product. destruct (fst oc) eqn:Ek.
   - destruct strict; [|exact I]. cbn. destruct (Hst eq_refl); discriminate.
@@ -646,7 +649,7 @@ Qed.
 
 (* the old creator of a detached non-root node is a detached step or static tree *)
 Lemma old_creator_facts s k n oc :
-  Inv s -> find_node k s = Some n -> ndet n = true -> ncre n = Some oc ->
+  Inv hh s -> find_node k s = Some n -> ndet n = true -> ncre n = Some oc ->
   is_detached oc s = true /\ (fst oc = KStep \/ fst oc = KTree).
 Proof.
   intros HI Hf Hd Hc. pose proof (inv_nw _ HI) as HW.
@@ -666,11 +669,11 @@ Proof.
 Qed.
 
 Lemma node_reattach_spec strict k c s :
-  Inv s -> fst k = KStep ->
+  Inv hh s -> fst k = KStep ->
   (strict = true -> find_node k s <> None /\ find_node c s <> None /\ is_detached k s = true /\
                     c <> k /\ creator_kind_ok (fst k) (fst c) = true) ->
   wpg strict (node_reattach k c s)
-      (fun s' => Inv s' /\ NodeOnly s s' /\
+      (fun s' => Inv hh s' /\ NodeOnly s s' /\
                  (forall n cn, find_node k s = Some n -> find_node c s = Some cn ->
                     nodes s' = reattach_nodes k c (ndet cn) (nodes s))).
 Proof.
@@ -693,7 +696,7 @@ Proof.
   assert (Hfin : forall s2, nodes s2 = nodes s1 -> files s2 = files s -> steps s2 = steps s ->
              deps s2 = deps s -> envs s2 = envs s -> defer_cap s2 = defer_cap s ->
              incl (shash s2) (shash s) -> NoDup (shash s2) ->
-             Inv (set_detached_rec k det s2) /\ NodeOnly s (set_detached_rec k det s2) /\
+             Inv hh (set_detached_rec k det s2) /\ NodeOnly s (set_detached_rec k det s2) /\
              (forall n0 cn0, Some n = Some n0 -> Some cn = Some cn0 ->
                 nodes (set_detached_rec k det s2) = reattach_nodes k c (ndet cn0) (nodes s))).
   { intros s2 E1 E2 E3 E4 E5 E6 E7 E8.
@@ -736,10 +739,10 @@ Lemma EL_app ds1 ds2 : EL (ds1 ++ ds2) = EL ds1 ++ EL ds2.
 Proof. apply map_app. Qed.
 
 Lemma add_dep_spec strict a b dyn s :
-  Inv s -> In a (KL (nodes s)) -> In b (KL (nodes s)) -> ~ path (EL (deps s)) b a ->
+  Inv hh s -> In a (KL (nodes s)) -> In b (KL (nodes s)) -> ~ path (EL (deps s)) b a ->
   (strict = true -> dep_kinds_ok a b = true) ->
   wpg strict (add_dep a b dyn s)
-      (fun s' => Inv s' /\ s' = set_deps s (deps s ++ [mkD a b dyn])).
+      (fun s' => Inv hh s' /\ s' = set_deps s (deps s ++ [mkD a b dyn])).
 Proof.
   intros HI Ha Hb Hp Hst. unfold add_dep.
   destruct (has_dep a b s) eqn:Ehd; [exact I|].
@@ -758,7 +761,7 @@ Proof.
     + apply acyclic_add_edge; assumption.
 Qed.
 
-Lemma Inv_filter_deps s p : Inv s -> Inv (set_deps s (filter p (deps s))).
+Lemma Inv_filter_deps s p : Inv hh s -> Inv hh (set_deps s (filter p (deps s))).
 Proof.
   intros [I1 I2 I3 I4 I5 I6 I7]. constructor; try assumption; cbn [deps set_deps nodes].
   - destruct I3 as [D1 D2 D3 D4]. constructor.
@@ -771,7 +774,7 @@ Proof.
     apply filter_In in Hd2. apply in_map_iff. exists d. tauto.
 Qed.
 
-Lemma del_deps_where_inv p s : Inv s -> Inv (del_deps_where p s).
+Lemma del_deps_where_inv p s : Inv hh s -> Inv hh (del_deps_where p s).
 Proof. intros HI. unfold del_deps_where. apply Inv_filter_deps. exact HI. Qed.
 
 Lemma path_filter_deps p ds a b : path (EL (filter p ds)) a b -> path (EL ds) a b.
@@ -822,9 +825,9 @@ Proof.
 Qed.
 
 Lemma delete_node_inv k kn s :
-  Inv s -> find_node k s = Some kn -> ndet kn = true -> products k s = [] ->
+  Inv hh s -> find_node k s = Some kn -> ndet kn = true -> products k s = [] ->
   (forall d, In d (deps s) -> dsrc d <> k) ->
-  Inv (delete_node k s).
+  Inv hh (delete_node k s).
 Proof.
   intros HI Hf Hdet Hprod Hsrc. pose proof HI as [I1 I2 I3 I4 I5 I6 I7].
   unfold find_node in Hf. fold (findn k (nodes s)) in Hf.
@@ -890,15 +893,15 @@ Record InvU (s : st) : Prop := {
   iu_dw : DWl (nodes s) (deps s);
   iu_ac : acyclic (EL (deps s));
   iu_fh : FHl (files s);
-  iu_sw : SWl (steps s) }.
+  iu_sw : SWl hh (steps s) }.
 
-Lemma Inv_InvU s : Inv s -> InvU s.
+Lemma Inv_InvU s : Inv hh s -> InvU s.
 Proof. intros [I1 I2 I3 I4 I5 I6 I7]. constructor; assumption. Qed.
-Lemma InvU_Inv s : InvU s -> UDl (nodes s) (files s) -> Inv s.
+Lemma InvU_Inv s : InvU s -> UDl (nodes s) (files s) -> Inv hh s.
 Proof. intros [I1 I2 I3 I4 I6 I7] I5. constructor; assumption. Qed.
 
 Lemma InvU_SO s s' :
-  InvU s -> SO s s' -> FHl (files s') -> SWl (steps s') ->
+  InvU s -> SO s s' -> FHl (files s') -> SWl hh (steps s') ->
   NoDup (shash s') -> incl (shash s') (SL (steps s)) -> InvU s'.
 Proof.
   intros [I1 I2 I3 I4 I6 I7] [E1 E2 E3 E4 E5 E6] HF HS Hh1 Hh2.
@@ -917,7 +920,7 @@ Lemma set_fstate_hash_gen strict l new newh s :
      | None => forall r, find_file l s = Some r -> fh r <> None
      end) ->
   wpg strict (set_fstate_hash l new newh s)
-      (fun s' => (find_file l s <> None -> Inv s') /\ SO s s' /\ steps s' = steps s /\ shash s' = shash s /\
+      (fun s' => (find_file l s <> None -> Inv hh s') /\ SO s s' /\ steps s' = steps s /\ shash s' = shash s /\
                  (forall l', l' <> l -> find_file l' s' = find_file l' s) /\
                  (find_file l s <> None -> fstate_of l s' = Some new) /\
                  (find_file l s = None -> s' = s)).
@@ -964,3 +967,7 @@ Proof.
       rewrite str_eqb_refl. unfold find_file in Hf. fold (findf l (files s)) in Hf. rewrite Hf. reflexivity.
     + intros H; discriminate.
 Qed.
+
+End HH.
+Arguments InvU : clear implicits.
+Arguments mark_post : clear implicits.
